@@ -314,10 +314,10 @@ theorem domFold_balanced (bs : Bytes) : ∀ (ts : List Token) (st fin : List Byt
         | bad _ => exact this.elim
 
 /-- the tags of every token list the tokenizer produces — accepted or not — obey the stack discipline -/
-theorem tokens_sm (o : Options) (bs : Bytes) : ∃ fin, sm bs [] (tokens o bs).1 = some fin := by
+theorem tokens_sm (o : Options) (bs : Bytes) : ∃ fin, sm bs [] (tokensC o bs).1 = some fin := by
   have hok := tokens_ok o bs
   have hst := hok.stack
-  cases hout : (tokens o bs).2 with
+  cases hout : (tokensC o bs).2 with
   | accepted t s => rw [hout] at hst; exact ⟨[], hst⟩
   | error e c s => rw [hout] at hst; exact ⟨s.stack, hst⟩
   | bad b => exact (hok.notBad b hout).elim
